@@ -157,6 +157,19 @@ class AddStream(HTMLHandlerBase):
                 data[f] = None
         if 'prefix' in params:
             data['directory'] = params['prefix']
+        for name in ['title', 'directory']:
+            if not isinstance(data.get(name), str):
+                return flask.make_response(f'{name} is required', 400)
+        for name in ['marlin_la_url', 'playready_la_url']:
+            if not isinstance(data.get(name), (str, type(None))):
+                return flask.make_response(f'Invalid {name}', 400)
+        if isinstance(data.get('pk'), str) and data['pk'].isdigit():
+            data['pk'] = int(data['pk'], 10)
+        if not isinstance(data.get('pk'), (int, type(None))) or isinstance(data.get('pk'), bool):
+            return flask.make_response('Invalid pk', 400)
+        for name in ['timing_ref', 'defaults']:
+            if not isinstance(data.get(name), (dict, type(None))):
+                return flask.make_response(f'Invalid {name}', 400)
         result = {}
         st = models.Stream.get(directory=data['directory'])
         if st:
